@@ -4,6 +4,7 @@ import (
 	"errors"
 	"fmt"
 	"os"
+	"runtime/debug"
 	"sort"
 	"strings"
 	"sync"
@@ -97,6 +98,7 @@ const (
 	c10AllEntries  = 1<<6 - 1
 	c10ProgEntries = c10AllEntries &^ (1 << 2) // programs and mutants: StmtsSeq adds nothing over Parse there
 	c10LongEntries = 1<<0 | 1<<1 | 1<<4 | 1<<5 // longest token sequences: Parse, ParseRecover, Document, Arithmetic
+	c10DeepEntries = 1<<0 | 1<<1               // mutants of the depth-1 programs (thorough): Parse, ParseRecover
 )
 
 // c10Call runs one entry point and returns its (first) error.
@@ -127,6 +129,8 @@ func c10Call(entry, variant, src string) (err error) {
 }
 
 func c10(c *vc.Ctx) {
+	// every call allocates a fresh parser (two 1 KiB buffers): collect less often
+	debug.SetGCPercent(400)
 	byteLen := vc.Pick(c, 3, 4)
 	tokLen := vc.Pick(c, 3, 4)
 	byteCore := vc.Pick(c, len(c10Bytes), 30)
@@ -136,8 +140,8 @@ func c10(c *vc.Ctx) {
 	longAlphabet := vc.Pick(c, c10CoreTokens, c10CoreTokens4)
 	cutSpace := synSpace{Depth: 2, CoreOnly: true, LayoutDepth: 1, Corpus: true, AllVariantsDeep: true}
 	insAlphabet := vc.Pick(c, c10InsertQuick, c10InsertThorough)
-	c.Rule = fmt.Sprintf("clause 1 (error positions): all byte strings of length <=%d over a %d-byte alphabet and of length %d over its first %d bytes; all token sequences of length <=%d over a %d-token alphabet and of length %d over its %d-token core, joined with spaces and (up to length %d) without; all token sequences of length <=2 over the first %d tokens behind each of %d paddings of 1021..1102 bytes (so that positions cross the 1 KiB read buffer); every 1-token edit (delete each token; insert before/replace each token with each of %d tokens) of [%s; corpus entries up to %d bytes]; each input in the 5 variants through %v (StmtsSeq only for byte/token inputs, the longest token sequences without the two Seq entry points); every returned ParseError/LangError (or error wrapping one) must carry a valid position with offset in [0,len(src)] whose line and column equal the ones recomputed from the offset by an independent calculator. clause 2 (incompleteness): every program of [%s] plus %d hand-written multi-line statements in %d contexts, %d multi-line words in %d contexts, %d whole-program newline layouts and all gap-alternative pairs of the grammar templates, and newline-joined pairs of the depth-0 templates, that parses in the variant and has a newline before its last byte; for every proper prefix ending right after a newline byte, Parse must succeed or return an error for which syntax.IsIncomplete is true; distinct = distinct (entry,error text) for clause 1 plus distinct (variant,prefix) for clause 2",
-		byteLen-1, len(c10Bytes), byteLen, byteCore, tokLen-1, len(c10Tokens), tokLen, longAlphabet, tokLen-1, padAlphabet, len(c10Pads), len(insAlphabet), mutSpace.describe(), mutCorpusMax, c10Entries,
+	c.Rule = fmt.Sprintf("clause 1 (error positions): all byte strings of length <=%d over a %d-byte alphabet and of length %d over its first %d bytes; all token sequences of length <=%d over a %d-token alphabet and of length %d over its %d-token core, joined with spaces and (up to length %d) without; all token sequences of length <=2 over the first %d tokens behind each of %d paddings of 1021..1102 bytes (so that positions cross the 1 KiB read buffer); every 1-token edit (delete each token; insert before/replace each token with each of %d tokens) of [%s; corpus entries up to %d bytes]; each input in the 5 variants through %v (StmtsSeq only for byte/token inputs; the longest token sequences and the padded inputs without the two Seq entry points; mutants of depth-1 programs through the two Parse flavours only and with the first %d insert/replace tokens); every returned ParseError/LangError (or error wrapping one) must carry a valid position with offset in [0,len(src)] whose line and column equal the ones recomputed from the offset by an independent calculator. clause 2 (incompleteness): every program of [%s] plus %d hand-written multi-line statements in %d contexts, %d multi-line words in %d contexts, %d whole-program newline layouts and all gap-alternative pairs of the grammar templates, and newline-joined pairs of the depth-0 templates, that parses in the variant and has a newline before its last byte; for every proper prefix ending right after a newline byte, Parse must succeed or return an error for which syntax.IsIncomplete is true; distinct = distinct (entry,error text) for clause 1 plus distinct (variant,prefix) for clause 2",
+		byteLen-1, len(c10Bytes), byteLen, byteCore, tokLen-1, len(c10Tokens), tokLen, longAlphabet, tokLen-1, padAlphabet, len(c10Pads), len(insAlphabet), mutSpace.describe(), mutCorpusMax, c10Entries, c10InsertDeep,
 		cutSpace.describe(), len(c10Stmts), len(c10StmtContexts), len(c10Words), len(c10Contexts), len(c10Layouts))
 	c.Assumptions = []string{
 		"a 'line boundary' is the point right after a newline byte (a POSIX line includes its terminator); prefixes that stop before the newline are counted (cut_before_newline_*) but not judged",
@@ -151,8 +155,16 @@ func c10(c *vc.Ctx) {
 	if part != "" {
 		c.CapNote("VERIF_C10_PART=%s: only one clause was run", part)
 	}
+	genCount := map[string]int{}
 	gen := func(emit func(c10Case)) {
 		each := func(mode, origin, src string, entries int) {
+			if part == "count" { // development aid: sizes of the spaces only
+				genCount[mode+"/"+origin]++
+				for e := entries; e != 0; e &= e - 1 {
+					genCount[mode+"/"+origin+"/calls"] += len(synt.Variants)
+				}
+				return
+			}
 			for _, v := range synt.Variants {
 				emit(c10Case{mode, src, v.Name, origin, entries})
 			}
@@ -197,14 +209,20 @@ func c10(c *vc.Ctx) {
 				}
 			}
 		})
+		depth0 := map[string]bool{}
+		synt.Sources(0, false, -1, func(x synt.Source) { depth0[x.Text] = true })
 		seenProg := map[string]bool{}
 		genSyn(c, mutSpace, func(t synCase) {
 			if seenProg[t.Src] || (t.Kind == 0 && len(t.Src) > mutCorpusMax) {
 				return
 			}
 			seenProg[t.Src] = true
+			entries, alphabet := c10ProgEntries, insAlphabet
+			if t.Kind == 1 && !depth0[t.Src] {
+				entries, alphabet = c10DeepEntries, insAlphabet[:c10InsertDeep]
+			}
 			each("pos", "program", t.Src, c10ProgEntries)
-			c10Mutants(t.Src, insAlphabet, func(m string) { each("pos", "mutant", m, c10ProgEntries) })
+			c10Mutants(t.Src, alphabet, func(m string) { each("pos", "mutant", m, entries) })
 		})
 	}
 	complete := vc.RunBatch(c, 1024, gen, func(ts []c10Case) []*vc.Fail {
@@ -225,6 +243,10 @@ func c10(c *vc.Ctx) {
 		}
 		return out
 	})
+	if part == "count" {
+		c.Extra["gen_count"] = genCount
+		fmt.Println(genCount)
+	}
 	c10PanicMu.Lock()
 	var ps []string
 	for k := range c10Panics {
@@ -345,7 +367,8 @@ func c10Cut(c *vc.Ctx, tl *c10Tally, t c10Case) *vc.Fail {
 			continue
 		}
 		// informational only: the prefix that stops before the newline
-		if err := parse(t.Src[:i]); err != nil && !syntax.IsIncomplete(err) {
+		if t.Origin == "layout" || t.Origin == "layout-pair" {
+		} else if err := parse(t.Src[:i]); err != nil && !syntax.IsIncomplete(err) {
 			tl.count("cut_before_newline_error_not_incomplete", 1)
 		} else {
 			tl.count("cut_before_newline_ok_or_incomplete", 1)
